@@ -568,18 +568,32 @@ func streamDecode(o *Out, r *Rng, tier string) {
 		nValid, nBad, exN = 40000, 40000, 5
 	}
 	o.meta.Rule = fmt.Sprintf("corpus witnesses; every string of length ≤ %d over the %d-symbol token alphabet %q (exhaustive); %d grammar-generated valid texts (all escape forms, surrogates, raw invalid UTF-8, number shapes, duplicate/empty keys, whitespace at every boundary); %d texts damaged by insert/delete/replace/truncate/append. A case is non-trivial and distinct when its (accept/reject, error offset, tree shape) signature together with its token-class skeleton has not been seen before.", exN, len(tokenAlphabet), tokenAlphabet, nValid, nBad)
+	// C11: a panic anywhere below is a finding with the text as its replay, not the end of the run
+	safe := func(what string, data []byte, f func() string) (obs string) {
+		o.Check("C11", "no-panic(decode)")
+		defer func() {
+			if r := recover(); r != nil {
+				obs = fmt.Sprintf("panic %v", r)
+				o.Fail("C11", "no-panic(decode)", what+" panicked on this text", hexOrDash(data), "", obs)
+			}
+		}()
+		return f()
+	}
 	one := func(data []byte, probe bool) {
-		d := obsDecode(data)
+		d := safe("Unmarshal", data, func() string { return obsDecode(data) })
 		sig := skeleton(data)
 		o.Emit("decode\t"+hexOrDash(data), d, sig)
-		o.Emit("ref\t"+hexOrDash(data), obsRef(data), "")
+		o.Emit("ref\t"+hexOrDash(data), safe("Unmarshal+Unpack", data, func() string { return obsRef(data) }), "")
+		if strings.HasPrefix(d, "panic") {
+			return
+		}
 		if strings.HasPrefix(d, "ok") {
 			o.Stat("accepted")
 		} else {
 			o.Stat("rejected")
 		}
 		if probe {
-			probeDecode(o, data)
+			safe("reading the parsed tree (getters, Source, Marshal, String, JSONPath)", data, func() string { probeDecode(o, data); return "" })
 		}
 	}
 	for _, w := range decodeCorpus {
